@@ -45,7 +45,7 @@ def build_seeds(v):
             seen.add(data)
             lines.append('%s\t%s\t%s\t' % (f, tool, m.group(1)))
     f14 = os.path.join(VERIF, 'findings', 'repro', 'f14_std07_jump_offset_overflow.std')
-    if os.path.exists(f14): lines.append('%s\ttrustd\t7\t' % f14)
+    if os.path.exists(f14): lines.append('%s\ttrustd\t7\t\tknownbad' % f14)   # panics unmodified (defect #14)
     for f in sorted(glob.glob(os.path.join(VERIF, 'corpus', 'C16', 'src', '*.spec'))):
         n = os.path.basename(f)[:-5]; parts = n.split('.')
         tool, g = parts[-1], parts[-2][1:]
@@ -128,7 +128,7 @@ def main(argv):
             for x in f: x['desc'] = 'corpus/C16/known/%s %s' % (os.path.basename(kf), x['desc'])
             fails += f
         # (b) the mutation stream through the command line and through the library
-        budget, nexec, ninproc, ncorr = (1800, 40, 6000, 120) if tier == 'quick' else (60000, 400, 400000, 1500)
+        budget, nexec, ninproc, ncorr = (1500, 30, 5000, 100) if tier == 'quick' else (40000, 300, 300000, 1500)
         f, s, d, se, he, _ = parse(run(v, c16, ['fuzz', mf, budget, tier, nexec], seed, 'fuzz'))
         fails += f; stats.update(s); diffs += d; seederr += se; herr += he
         f, s, d, se, he, _ = parse(run(v, c16, ['inproc', mf, ninproc, 'quick'], seed + 1, 'inproc'))
